@@ -12,7 +12,7 @@ PKG=$(grep -oE -- '-p [a-z_-]+' $OUT/demo_cmd.txt | head -1)   # a demo placed i
 [ -z "$DEMO_DST" ] && DEMO_DST=tests/seed_demo.rs
 DEMO_NAME=$(basename $DEMO_DST .rs)
 git checkout -q -- . ; git clean -fdq -e target
-cp $OUT/demo.rs $DEMO_DST
+mkdir -p $(dirname $DEMO_DST); cp $OUT/demo.rs $DEMO_DST
 echo "== demo WITHOUT patch (expect pass)" >> $LOG
 timeout 900 cargo test $PKG --offline -j ${VJ:-6} --test $DEMO_NAME >> $LOG 2>&1; A=$?
 git apply $OUT/patch.diff || { echo "PATCH DOES NOT APPLY" >> $LOG; exit 3; }
